@@ -260,3 +260,123 @@ class WalkOrder(Contract):
         h.oblige(f"post-visit-once[{Mn},{Kn}]", z3.BoolVal(len(pv) == 1))
         h.oblige(f"post-visit-last[{Mn},{Kn}]",
                  z3.BoolVal(bool(pv) and all(i < pv[0] for i in recs)))
+
+
+# {{{ dispatch completeness
+
+#: (mapper, kind) pairs for which no method is *meant* to resolve
+DISPATCH_EXEMPT = {
+    ("CombineMapper", "SizeParam"):
+        "abstract base: what a size parameter contributes is the subclass's "
+        "decision (every concrete subclass is checked)",
+    ("UsersCollector", "FunctionDefinition"):
+        "asserts it is never reached (a fresh collector per function body)",
+}
+
+#: general-purpose mappers that are expected to accept *every* node kind the
+#: array API can put into a graph (special-purpose ones -- code generators,
+#: shape-expression mappers, the lowering -- document a restricted input)
+DISPATCH_MAPPERS = list(ml.STRUCTURAL_MAPPERS)
+
+
+@contract
+class DispatchComplete(Contract):
+    """``pairs()`` above takes its instance list from the code (the pairs for
+    which a method exists), so a mapper that simply lacks the method for a
+    node kind would go unnoticed there.  Here the real ``Mapper.rec`` /
+    ``rec_function_definition`` look-up is executed (source interpreted, every
+    ``map_*`` replaced by a marker) for every general-purpose mapper and
+    every node kind: it must resolve to *some* method -- directly or through
+    the MRO fall-back -- instead of ending in ``handle_unsupported_array``."""
+    name = "mappers.dispatch"
+    functions = ("pytato.transform:Mapper.rec",
+                 "pytato.transform:Mapper.rec_function_definition")
+    properties = ("C13", "C20")
+
+    def instances(self, tier):
+        out = []
+        for Mn in DISPATCH_MAPPERS:
+            try:
+                ml.mapper_by_name(Mn)
+            except KeyError:
+                continue
+            for K in kinds():
+                if K is FunctionDefinition:
+                    # reached only from a mapper's own map_call, and only if
+                    # that chooses to descend: the pairs with a method are
+                    # instances of mappers.children
+                    continue
+                out.append(dict(label=f"{Mn};{K.__name__}", M=Mn,
+                                K=K.__name__))
+        return out
+
+    def canaries(self, tier):
+        return [(dict(label="CopyMapper;Roll", M="CopyMapper", K="Roll"),
+                 "method-removed", "dispatch-complete[CopyMapper,Roll]",
+                 ("C13", "C20"))]
+
+    def run(self, h, inst):
+        from pytato.transform import Mapper, UnsupportedArrayError
+        Mn, Kn = inst["M"], inst["K"]
+        M, K = ml.mapper_by_name(Mn), kind_by_name(Kn)
+        if (Mn, Kn) in DISPATCH_EXEMPT:
+            h.oblige(f"dispatch-exempt[{Mn},{Kn}]", z3.BoolVal(True),
+                     info=DISPATCH_EXEMPT[Mn, Kn])
+            return
+        hit = []
+
+        class Probe(M):
+            pass
+        names = {n for c in M.__mro__ for n in vars(c) if n.startswith("map_")}
+        if h.canary == "method-removed":
+            names.discard(method_name(K))
+            setattr(Probe, method_name(K), property(
+                lambda self: (_ for _ in ()).throw(AttributeError("removed"))))
+        for n in names:
+            setattr(Probe, n, (lambda n_: lambda self, expr, *a, **k:
+                               hit.append(n_))(n))
+        try:
+            mapper = ml._factories().get(Mn, lambda C: C())(Probe)
+        except Exception as e:  # noqa: BLE001
+            from pyvc.sym import OutsideSubset
+            raise OutsideSubset(f"cannot instantiate {Mn}: {e}") from e
+        node = gm.build(K, "e", "concrete", dict(BASE_CFG)).obj
+        entry = Mapper.rec_function_definition if K is FunctionDefinition \
+            else Mapper.rec
+        try:
+            h.call(entry, mapper, node)
+        except EngineSignal:
+            raise
+        except (UnsupportedArrayError, ValueError) as e:
+            h.fail(f"dispatch-complete[{Mn},{Kn}]",
+                   f"{type(e).__name__}: {e}")
+            return
+        h.oblige(f"dispatch-complete[{Mn},{Kn}]", z3.BoolVal(len(hit) == 1),
+                 info=hit)
+
+    def replay(self, inst, clause, model, info):
+        return DISPATCH_REPLAY.format(M=inst["M"], K=inst["K"])
+
+
+DISPATCH_REPLAY = '''
+import sys
+sys.path.insert(0, "/verif")
+sys.path.append("/verif/.deps")
+from pyvc.replay_nodes import sample_node, symbolic_sample_node
+from pyvc.replaylib import reproduced, not_reproduced
+from pyvc import mapperlib as ml
+from pytato.transform import UnsupportedArrayError
+Mn, Kn = {M!r}, {K!r}
+M = ml.mapper_by_name(Mn)
+for node in [*sample_node(Kn), *symbolic_sample_node(Kn)]:
+    try:
+        ml.instantiate(M)(node)
+    except UnsupportedArrayError as e:
+        reproduced(f"{{Mn}} run on a real graph containing a {{Kn}} "
+                   f"({{node!r:.120}}) raises UnsupportedArrayError: {{e}}")
+    except Exception:
+        pass
+not_reproduced("no sampled real graph ends in handle_unsupported_array")
+'''
+
+# }}}
